@@ -269,14 +269,18 @@ def run_shard(shard, tier, acc):
     if shard[0] == "leak":
         pats = [k for n in (1, 2, 3) for k in itertools.product(KEYS, repeat=n)]
         inputs = [(lambda k=k: mk(k)) for k in pats]
+        from .. import hostile
+
+        P = hostile.libraries()
         for ip in (True, False):
-            leak.run(lambda: SortFieldsAlphabeticallyMiddleware(allow_inplace_modification=ip), inputs, acc, f"alphabetical({ip})", case_of=lambda i: list(pats[i]))
-            leak.run(lambda: NormalizeFieldKeys(allow_inplace_modification=ip), inputs, acc, f"normalize({ip})", case_of=lambda i: list(pats[i]))
+            J = None if ip else leak.copy_judge
+            leak.run(lambda: SortFieldsAlphabeticallyMiddleware(allow_inplace_modification=ip), inputs, acc, f"alphabetical({ip})", case_of=lambda i: list(pats[i]), poison=P, judge=J)
+            leak.run(lambda: NormalizeFieldKeys(allow_inplace_modification=ip), inputs, acc, f"normalize({ip})", case_of=lambda i: list(pats[i]), poison=P, judge=J)
             for order, cs in CUSTOM[::9]:
                 folded = list(order) if cs else [k.lower() for k in order]
                 if len(set(folded)) != len(folded):
                     continue
-                leak.run(lambda o=order, c=cs: SortFieldsCustomMiddleware(order=tuple(o), case_sensitive=c, allow_inplace_modification=ip), inputs, acc, f"custom({order},{cs},{ip})", case_of=lambda i: list(pats[i]))
+                leak.run(lambda o=order, c=cs: SortFieldsCustomMiddleware(order=tuple(o), case_sensitive=c, allow_inplace_modification=ip), inputs, acc, f"custom({order},{cs},{ip})", case_of=lambda i: list(pats[i]), poison=P, judge=J)
         return
     maxn = 5 if tier == "quick" else 8
     if shard[0] == "short":
